@@ -503,7 +503,7 @@ DT_REGEX = re.compile(
                 (
                     \[(?P<gmt_offset_hours>[0-9-+]+)
                     (
-                        (.(?P<gmt_offset_minutes>\d\d))?
+                        (\.(?P<gmt_offset_minutes>\d\d))?
                         (:(?P<tz_name>.*))?
                     )?
                     \]
@@ -663,7 +663,7 @@ TIME_REGEX = re.compile(
         (
             \[(?P<gmt_offset_hours>[0-9-+]+)
             (
-                (.(?P<gmt_offset_minutes>\d\d))?
+                (\.(?P<gmt_offset_minutes>\d\d))?
                 (:(?P<tz_name>.*))?
             )?
             \]
